@@ -585,7 +585,7 @@ def _compose_elements(
 
 def _keyword_filter(type_: Type) -> Callable[[Dict[str, Any]], Dict[str, Any]]:
     """Create a filter to pull out only relevant keywords for a given type."""
-    params = inspect.signature(type_.__init__).parameters.values()
+    params = list(inspect.signature(type_.__init__).parameters.values())[1:]
     args = {param.name for param in params}
 
     def _filter(schema: Dict[str, Any]) -> Dict[str, Any]:
